@@ -45,6 +45,7 @@ def gen(run):
     raw += list(W.frame_sequences(2 if quick else 3, [0, W.ALPHA] if quick else [0, W.ALPHA, W.EXIF]))
     raw += list(W.frame_orders(2 if quick else 3))
     raw += list(W.empty_trailers())
+    raw += list(W.dim_mismatch())
     if not quick:
         raw += list(W.sequences(5, FLAGSETS_Q, allows=(True,), sample=0.15, rng=run.rng))
     lines = W.with_tables(run, [l for l, _ in raw])
